@@ -574,6 +574,50 @@ def r5(k: Kit) -> None:
     rep.floor('C16.R5', 'verify_ssh cases', n, 20)
 
 
+def r6(k: Kit) -> None:
+    """Host certificates are validated whichever way the CA got trusted;
+    the SSHSIG digest covers exactly the bytes of the message."""
+    rep = k.rep
+    # shared rows of the C04 trust tables
+    from .c04 import r1 as c04r1
+    rep.rule('C16.R6', 'rows of the C04.R1 trust decision tables about '
+             'certificates: a host certificate is accepted only after '
+             'cert.validate(host type, host name) - also when its CA was '
+             'approved by the application callback rather than by '
+             'known_hosts; _signed_data hashes a message given by file name '
+             'by feeding the hash exactly what each read() returned')
+    before = len(rep.obligations)
+    c04r1(k)
+    kept = []
+    for o in rep.obligations[before:]:
+        if 'certificate' in o.key:
+            o.rule = 'C16.R6'
+            kept.append(o)
+    del rep.obligations[before:]
+    rep.obligations.extend(kept)
+    rep.floor('C16.R6', 'certificate rows of the trust tables', len(kept), 3)
+    fi = k.func('sshsig._signed_data')
+    g = k.cfg(fi)
+    rd = k.rd(fi)
+    ups = [(n, c) for n, c in k.calls_named(fi, 'update')]
+    rep.floor('C16.R6', 'hash update sites', len(ups), 1)
+    for n, c in ups:
+        arg = c.args[0] if c.args else None
+        leaves, free = expr_sources(g, rd, n.id, arg) if arg is not None \
+            else ([], set())
+        okr = bool(leaves) and all(
+            isinstance(l, ast.Call) and isinstance(l.func, ast.Attribute)
+            and l.func.attr == 'read' for l in leaves) and not free
+        rep.check(okr, 'C16.R6', key(fi, 'digest of the bytes read'),
+                  'h.update() is fed the value returned by read()',
+                  f'h.update(`{norm(arg) if arg is not None else ""}`) is '
+                  'not fed what read() returned (e.g. a fixed-size buffer '
+                  'filled by readinto, whose tail is stale or zero): a '
+                  'signature over file F also validates for F plus padding, '
+                  'and not for the same bytes given in memory',
+                  k.loc(fi, n))
+
+
 def run(idx, rep, tier):
     k = Kit(idx, rep)
     rep.assumptions += NOT_DECIDED
@@ -583,3 +627,4 @@ def run(idx, rep, tier):
     cert_validity(k, 'C16.R3')
     r4(k)
     r5(k)
+    r6(k)
